@@ -63,8 +63,8 @@ Theorem c07_call_frame : forall m T K fuel h sys s s',
 Proof. exact call_frame_restored. Qed.
 Print Assumptions c07_call_frame.
 
-Theorem c07_depth_on_return : forall m T K f h sys s s1 s2,
-  step m Noop (start_call_ctx s h sys) = Ok s1 ->
+Theorem c07_depth_on_return : forall m T K f h (sys : bool) s s1 s2,
+  cstep m (if sys then SysCall else Call) Noop (start_call_ctx s h sys) = Ok s1 ->
   (if word_eqb h DYN_HASH then exec_dyn m T K f s1
    else match table_get T h with Some body => exec_block m T K f body s1
                                | None => Err CodeBlockNotFound s1 end) = Ok s2 ->
